@@ -1,7 +1,8 @@
 #!/bin/bash
 # Builds the framework once and warms the Go build cache (offline).
 set -e
-cd /verif
+V=$(cd "$(dirname "$0")" && pwd)
+cd $V
 export GOTOOLCHAIN=local GOFLAGS=-mod=mod GOPROXY=off GOSUMDB=off PATH=/opt/veriftools/go1.26.8/bin:$PATH
 S=$(mktemp -d /var/tmp/vsetup.XXXXXX)
 trap 'rm -rf "$S"' EXIT
